@@ -107,7 +107,8 @@ WalletTags(S, i, w, v, R) ==
                     \/ form[x] = "std" /\ R[w].ref[x].std \notin Range(v.std)
                     \/ form[x] = "stk" /\ R[w].ref[x].stk \notin Range(v.stk)
               THEN {<<"C04", "address-form">>} ELSE {})
-        \cup (IF v.cached > 0 THEN {<<"C05", "cache-not-empty">>} ELSE {})
+        \* no private key stays cached after a call - except inside a signing window (hold .. lock)
+        \cup (IF v.cached > 0 /\ w \notin S.inst[i].held THEN {<<"C05", "cache-not-empty">>} ELSE {})
         \cup (IF ~v.ready THEN {<<"HARNESS", "wallet-not-ready">>} ELSE {})
 
 ViewTags(S, i, V, R) ==
@@ -157,6 +158,12 @@ OpTags(S, S2, l, R) ==
               THEN {<<"C04", "key-mismatch">>} ELSE {})
         \cup (IF l.a = "sign" /\ l.res = "ok" /\ ~g.sigok THEN {<<"C04", "key-mismatch">>} ELSE {})
         \cup (IF l.a = "sign" /\ want = "ok" /\ g.pub = "" THEN {<<"C04", "address-not-managed">>} ELSE {})
+        \* --- the change (internal-branch) addresses a mnemonic import restores: the reference address at every
+        \*     restored index is managed, its key commits to it, and a signature made on request verifies under it
+        \cup (IF l.a = "impmn" /\ want = "ok" /\ l.res = "ok" /\ (\E j \in DOMAIN g.int : ~g.int[j].managed)
+              THEN {<<"C04", "address-not-managed">>} ELSE {})
+        \cup (IF l.a = "impmn" /\ want = "ok" /\ l.res = "ok" /\ (\E j \in DOMAIN g.int : g.int[j].managed /\ (~g.int[j].commit \/ ~g.int[j].sigok))
+              THEN {<<"C04", "key-mismatch">>} ELSE {})
         \* --- what the instance lists / holds afterwards
         \cup ViewTags(S2, l.i, l.view, R)
 
